@@ -35,6 +35,28 @@ pub fn install_panic_hook() {
 
 pub const D: u128 = 1_000_000;
 pub const DENOM: &str = "uwasm";
+thread_local! {
+    /// 1.0 in raw units of the world this thread is currently executing (set by World::new / restore)
+    pub static UNIT: std::cell::Cell<u128> = std::cell::Cell::new(D);
+}
+/// 1.0 in raw units of the current world
+pub fn du() -> u128 {
+    UNIT.with(|u| u.get())
+}
+pub fn di() -> i128 {
+    du() as i128
+}
+/// native denominations by decimals (the engine derives the decimals from the prefix letter)
+pub fn denom_for(dec: u8) -> &'static str {
+    match dec {
+        6 => "uwasm",
+        9 => "nwasm",
+        _ => panic!("unsupported native decimals"),
+    }
+}
+fn six() -> u8 {
+    6
+}
 pub const WALLETS: [&str; 5] = ["alice", "bob", "carol", "liq", "stranger"];
 
 #[derive(Clone, Debug, Serialize, Deserialize, PartialEq)]
@@ -65,6 +87,13 @@ pub struct Cfg {
     /// (a separate, owner-updatable setting of the vAMM that only authorises SetOpen)
     #[serde(default)]
     pub vamm_if_other: bool,
+    /// decimals of the collateral (cw20 token decimals; native is always 6) = decimals of the engine and
+    /// its vAMMs. All amounts and ratios of a `Cfg` are written in 6-decimal notation; `World::new` deploys them
+    /// multiplied by 10^(dec-6) and keeps the multiplied copy in `World::cfg`.
+    #[serde(default = "six")]
+    pub dec: u8,
+    #[serde(skip)]
+    pub scaled: bool,
 }
 
 impl Default for Cfg {
@@ -90,11 +119,36 @@ impl Default for Cfg {
             oi_cap: 0,
             holding_cap: 0,
             vamm_if_other: false,
+            dec: 6,
+            scaled: false,
         }
     }
 }
 
 impl Cfg {
+    /// raw units per notation unit
+    pub fn k(&self) -> u128 {
+        10u128.pow(self.dec as u32 - 6)
+    }
+    /// 1.0 in raw units
+    pub fn d(&self) -> u128 {
+        10u128.pow(self.dec as u32)
+    }
+    pub fn scaled_copy(&self) -> Cfg {
+        if self.scaled {
+            return self.clone();
+        }
+        let k = self.k();
+        let mut c = self.clone();
+        for f in [
+            &mut c.quote_reserve, &mut c.base_reserve, &mut c.toll, &mut c.spread, &mut c.fluct, &mut c.imr, &mut c.mmr,
+            &mut c.plr, &mut c.liq_fee, &mut c.wallet, &mut c.if_funds, &mut c.oi_cap, &mut c.holding_cap,
+        ] {
+            *f *= k;
+        }
+        c.scaled = true;
+        c
+    }
     pub fn label(&self) -> String {
         format!(
             "{}{}v{} q{}b{} toll{} spread{} fl{} imr{} mmr{} plr{} lf{}{}",
@@ -115,7 +169,7 @@ impl Cfg {
                 if self.oi_cap > 0 || self.holding_cap > 0 { format!(" oicap{} hcap{}", self.oi_cap, self.holding_cap) } else { String::new() },
                 if self.if_funds != 5_000 * D { format!(" if{}", self.if_funds) } else { String::new() },
                 if self.vamm_if_other { " vamm-names-other-ifund" } else { "" }
-            )
+            ) + if self.dec != 6 { " dec9" } else { "" }
         )
     }
 }
@@ -151,6 +205,9 @@ pub struct World {
     pub token: Option<Addr>,
     pub vamm_code: u64,
     pub in_flight_keys: Vec<(String, Vec<u8>)>,
+    /// 1.0 in raw units (10^decimals)
+    pub d: u128,
+    pub denom: &'static str,
 }
 
 pub fn len_prefixed(ns: &[u8]) -> Vec<u8> {
@@ -169,6 +226,11 @@ pub fn contract_prefix(addr: &str) -> Vec<u8> {
 
 impl World {
     pub fn new(cfg: &Cfg) -> World {
+        let cfg = &cfg.scaled_copy();
+        assert!(cfg.cw20 || cfg.dec == 6, "the engine accepts only the 6-decimal native denominations ujunox / uwasm");
+        let denom = denom_for(cfg.dec);
+        let d = cfg.d();
+        UNIT.with(|u| u.set(d));
         let store = SnapStorage::default();
         let tap = Tap::default();
         let mut keeper: WasmKeeper<Empty, Empty> = WasmKeeper::new();
@@ -229,7 +291,7 @@ impl World {
                     router
                         .bank
                         .inner
-                        .init_balance(storage, &Addr::unchecked(a), vec![Coin::new(wallet, DENOM)])
+                        .init_balance(storage, &Addr::unchecked(a), vec![Coin::new(wallet, denom)])
                         .unwrap();
                 }
                 router
@@ -238,7 +300,7 @@ impl World {
                     .init_balance(
                         storage,
                         &Addr::unchecked("bank"),
-                        vec![Coin::new(if_funds, DENOM)],
+                        vec![Coin::new(if_funds, denom)],
                     )
                     .unwrap();
             });
@@ -261,7 +323,7 @@ impl World {
                     &cw20_base::msg::InstantiateMsg {
                         name: "USDC".into(),
                         symbol: "USDC".into(),
-                        decimals: 6,
+                        decimals: cfg.dec,
                         initial_balances: bals,
                         mint: None,
                         marketing: None,
@@ -296,7 +358,7 @@ impl World {
                     eligible_collateral: token
                         .as_ref()
                         .map(|t| t.to_string())
-                        .unwrap_or(DENOM.into()),
+                        .unwrap_or(denom.into()),
                     initial_margin_ratio: Uint128::new(cfg.imr),
                     maintenance_margin_ratio: Uint128::new(cfg.mmr),
                     liquidation_fee: Uint128::new(cfg.liq_fee),
@@ -348,7 +410,7 @@ impl World {
             app.send_tokens(
                 Addr::unchecked("bank"),
                 ifund.clone(),
-                &[Coin::new(if_funds, DENOM)],
+                &[Coin::new(if_funds, denom)],
             )
             .unwrap();
         }
@@ -408,9 +470,11 @@ impl World {
             token,
             vamm_code: vamm_id,
             in_flight_keys: vec![],
+            d,
+            denom,
         };
         for i in 0..cfg.n_vamms {
-            let v = w.new_vamm(6, &format!("vamm{}", i), cfg.quote_reserve, cfg.base_reserve);
+            let v = w.new_vamm(cfg.dec, &format!("vamm{}", i), cfg.quote_reserve, cfg.base_reserve);
             w.admin(&v.clone(), &VammExec::SetOpen { open: true });
             w.admin(
                 &w.ifund.clone(),
@@ -453,17 +517,17 @@ impl World {
             w.vamms.push(v);
         }
         if cfg.extra_unregistered {
-            let v = w.new_vamm(6, "vamm-unreg", cfg.quote_reserve, cfg.base_reserve);
+            let v = w.new_vamm(cfg.dec, "vamm-unreg", cfg.quote_reserve, cfg.base_reserve);
             w.admin(&v.clone(), &VammExec::SetOpen { open: true });
             w.unregistered = Some(v);
         }
         if cfg.extra_7dec {
-            let v = w.new_vamm(7, "vamm-7dec", cfg.quote_reserve * 10, cfg.base_reserve * 10);
+            let v = w.new_vamm(cfg.dec + 1, "vamm-7dec", cfg.quote_reserve * 10, cfg.base_reserve * 10);
             w.admin(&v.clone(), &VammExec::SetOpen { open: true });
             w.vamm7 = Some(v);
         }
         let now = w.now();
-        let p0 = cfg.quote_reserve * D / cfg.base_reserve;
+        let p0 = cfg.quote_reserve * d / cfg.base_reserve;
         for f in [w.mock_pf.clone(), w.real_pf.clone()] {
             w.admin(
                 &f,
@@ -505,10 +569,10 @@ impl World {
                     quote_asset_reserve: Uint128::new(q),
                     base_asset_reserve: Uint128::new(b),
                     funding_period: self.cfg.funding_period,
-                    toll_ratio: Uint128::new(self.cfg.toll * 10u128.pow(decimals as u32 - 6)),
-                    spread_ratio: Uint128::new(self.cfg.spread * 10u128.pow(decimals as u32 - 6)),
+                    toll_ratio: Uint128::new(self.cfg.toll * 10u128.pow((decimals - self.cfg.dec) as u32)),
+                    spread_ratio: Uint128::new(self.cfg.spread * 10u128.pow((decimals - self.cfg.dec) as u32)),
                     fluctuation_limit_ratio: Uint128::new(
-                        self.cfg.fluct * 10u128.pow(decimals as u32 - 6),
+                        self.cfg.fluct * 10u128.pow((decimals - self.cfg.dec) as u32),
                     ),
                 },
                 &[],
@@ -532,6 +596,7 @@ impl World {
         }
     }
     pub fn restore(&mut self, s: &Snap) {
+        UNIT.with(|u| u.set(self.d));
         *self.store.0.borrow_mut() = s.kv.clone();
         self.app.set_block(s.block.clone());
     }
@@ -560,7 +625,7 @@ impl World {
         fail_at: Option<u32>,
     ) -> Outcome {
         let f = if funds > 0 {
-            vec![Coin::new(funds, DENOM)]
+            vec![Coin::new(funds, self.denom)]
         } else {
             vec![]
         };
@@ -656,7 +721,7 @@ impl World {
             None => self
                 .app
                 .wrap()
-                .query_balance(who, DENOM)
+                .query_balance(who, self.denom)
                 .unwrap()
                 .amount
                 .u128(),
@@ -696,7 +761,7 @@ impl World {
             }
             None => {
                 self.app
-                    .send_tokens(Addr::unchecked("stranger"), ifund, &[Coin::new(amt, DENOM)])
+                    .send_tokens(Addr::unchecked("stranger"), ifund, &[Coin::new(amt, self.denom)])
                     .unwrap();
             }
         }
@@ -848,8 +913,9 @@ impl World {
         if last.2 == 0 {
             return None;
         }
-        let price = last.1 * D / last.2;
-        Some((price * (D - limit) / D, price * (D + limit) / D))
+        let d = self.d;
+        let price = last.1 * d / last.2;
+        Some((price * (d - limit) / d, price * (d + limit) / d))
     }
     /// raw engine position records: storage key suffix -> bytes
     pub fn raw_positions(&self) -> BTreeMap<Vec<u8>, Vec<u8>> {
